@@ -99,6 +99,39 @@ void exPotential(const json &in, json &out) {
   });
 }
 
+// a potential given directly as a cubic spline: a constant well of the given depth
+// on the sub-window [s, e) of its grid (s = e = 0: the empty zero potential), and
+// the same potential plus the constant c on the whole grid
+void exPotentialWin(const json &in, json &out) {
+  using namespace bspline::examples::spline_potential;
+  using bspline::examples::PSpline;
+  std::vector<data_t> pts;
+  for (const auto &p : in.at("pts")) pts.push_back(rat(p));
+  const size_t s = in.at("s").get<size_t>(), e = in.at("e").get<size_t>();
+  const double depth = rat(in.at("depth")), c = rat(in.at("shift"));
+  guarded(out, "out", [&] {
+    const Grid<data_t> g(pts);
+    const Support<data_t> win(g, s, e);
+    const PSpline v1(win, std::vector<std::array<data_t, 4>>(win.numberOfIntervals(), {depth, 0, 0, 0}));
+    const PSpline shift(Support<data_t>::createWholeGrid(g), std::vector<std::array<data_t, 4>>(pts.size() - 1, {c, 0, 0, 0}));
+    const PSpline v2 = v1 + shift;
+    const auto e1 = solveSEWithSplinePotential(v1);
+    const auto e2 = solveSEWithSplinePotential(v2);
+    double dev = 0, mag = 1;
+    for (size_t i = 0; i < e1.size() && i < e2.size(); i++) {
+      dev = std::max(dev, std::fabs(e2[i].energy - e1[i].energy - c));
+      mag = std::max({mag, std::fabs(e1[i].energy), std::fabs(e2[i].energy)});
+    }
+    out["count"] = e1.size();
+    out["shift_err"] = dev;
+    out["shift_ok"] = (e1.size() == 10 && e2.size() == 10 && dev <= 1e-8 * mag) ? 1 : 0;
+    out["interp_ok"] = 1;
+    bool sorted = true;
+    for (size_t i = 1; i < e1.size(); i++) sorted = sorted && e1[i - 1].energy <= e1[i].energy;
+    out["sorted"] = sorted ? 1 : 0;
+  });
+}
+
 void exOscillator(const json &, json &out) {
   guarded(out, "out", [&] {
     const auto es = bspline::examples::harmonic_oscillator::solveHarmonicOscillator();
@@ -126,6 +159,6 @@ void exHydrogen(const json &, json &out) {
     out["ok"] = (es.size() >= 1 && dev <= 1e-10) ? 1 : 0;
   });
 }
-Reg r1("ExDiffusion", exDiffusion), r2("ExPotential", exPotential), r3("ExOscillator", exOscillator), r4("ExHydrogen", exHydrogen);
+Reg r0("ExPotentialWin", exPotentialWin), r1("ExDiffusion", exDiffusion), r2("ExPotential", exPotential), r3("ExOscillator", exOscillator), r4("ExHydrogen", exHydrogen);
 }  // namespace
 }  // namespace verif
